@@ -296,3 +296,22 @@ Definition switch_exec (cs : list clause) (v : Z) : list N :=
 (* the seeded mistake "a default clause has nothing to fall into": its fallthrough is dropped *)
 Definition drop_default_fallthrough (cs : list clause) : list clause :=
   map (fun c => match c with (None, m, _) => (None, m, false) | c => c end) cs.
+
+(* ---------- keyed struct literal: which field does the key `name` denote? (cl/expr.go lookupField) ----------
+   the first field whose name IS the key; Go has no other rule *)
+Fixpoint lookup_field (fs : list str) (name : str) : option nat :=
+  match fs with
+  | [] => None
+  | f :: t => if str_eqb f name then Some O else option_map S (lookup_field t name)
+  end.
+Definition capitalise (s : str) : str :=
+  match s with
+  | c :: t => (if (97 <=? c)%N && (c <=? 122)%N then (c - 32)%N else c) :: t
+  | [] => []
+  end.
+(* the seeded variant: one pass that also accepts the capitalised spelling of the key *)
+Fixpoint lookup_field_alias (fs : list str) (name : str) : option nat :=
+  match fs with
+  | [] => None
+  | f :: t => if str_eqb f name || str_eqb f (capitalise name) then Some O else option_map S (lookup_field_alias t name)
+  end.
